@@ -86,4 +86,44 @@ Section Spec.
     | [] => s
     | o :: r => srun (fst (sstep s o)) r
     end.
+
+  (* ---- vocabulary of the theorems (props/C11.v) ---- *)
+
+  (** the contract of the frame renderer: the image has n_frames >= 1 frames; asking for
+      frame number n_frames (and only that) raises EOFError *)
+  Definition renderer_ok : Prop :=
+    (1 <= N)%nat /\ (forall z, fmt_frame N z = Eof) /\ (forall k z, (k < N)%nat -> fmt_frame k z <> Eof).
+
+  (** the sizes the image takes during a history *)
+  Definition sizes_of (z0 : Size) (ops : list (op Size)) : list Size :=
+    z0 :: flat_map (fun o => match o with SetImageSize z => [z] | _ => [] end) ops.
+
+  (** Python's hash() tells these sizes apart *)
+  Definition hash_separates (hash : Size -> Z) (l : list Size) : Prop :=
+    forall a b, In a l -> In b l -> hash a = hash b -> a = b.
+
+  Definition in_range (p : Z) : bool := (0 <=? p)%Z && (p <? Z.of_nat N)%Z.
+
+  (** what every operation answers once the iterator has ended (exhausted, failed, closed,
+      deleted), [p] and [l] being image.tell() and loop_no at that moment *)
+  Definition ended_view (p : Z) (l : option Z) (o : op Size) : outcome Str * Z * option Z * bool :=
+    (match o with
+     | Next => OStop
+     | Seek q => if in_range q then OSeekClosed else OSeekBad
+     | Close | Drop => OClosed
+     | SetImageSize _ => OSized
+     end, p, l, false).
+
+  (** one full pass over frames [F 0 .. F (N-1)] with the countdown showing [l] *)
+  Definition pass_frames (F : nat -> Str) (l : Z) : list (outcome Str * Z * option Z * bool) :=
+    map (fun k => (OYield k (F k), Z.of_nat k, Some l, true)) (seq 0 N).
+
+  (** [c] passes, the countdown showing c, c-1, .., 1 *)
+  Fixpoint passes (F : nat -> Str) (c : nat) : list (outcome Str * Z * option Z * bool) :=
+    match c with
+    | 0 => []
+    | S c' => pass_frames F (Z.of_nat c) ++ passes F c'
+    end.
+
+  Definition stopped : outcome Str * Z * option Z * bool := (OStop, 0%Z, Some 0%Z, false).
 End Spec.
